@@ -38,6 +38,27 @@ structure Sel where
   typ : Nat
 deriving DecidableEq, Repr
 
+/-- `YankNthArgState` (buffer.py): `history_position`, `n`, `previous_inserted_word` -/
+structure YankSt where
+  pos : Int
+  n : Int
+  prev : Text
+deriving DecidableEq, Repr
+
+/-- `Completion`: `text`, `start_position` -/
+structure Completion where
+  text : Text
+  start : Int
+deriving DecidableEq, Repr
+
+/-- `CompletionState` (buffer.py): `original_document`, `completions`, `complete_index` -/
+structure CompSt where
+  origText : Text
+  origCur : Nat
+  comps : List Completion
+  index : Option Nat
+deriving DecidableEq, Repr
+
 /-- The state of a `Buffer` that the property talks about. -/
 structure Buf where
   lines : List Text            -- `_working_lines`
@@ -50,6 +71,9 @@ structure Buf where
   readOnly : Bool              -- `read_only()`
   hsearch : Option Text        -- `history_search_text`
   enableHS : Bool              -- `enable_history_search()`
+  hist : List Text := []       -- `history.get_strings()` (oldest first)
+  yank : Option YankSt := none -- `yank_nth_arg_state`
+  comp : Option CompSt := none -- `complete_state`
 deriving DecidableEq, Repr
 
 /-- `Buffer.text` getter: `_working_lines[working_index]` (empty when the index is invalid;
@@ -61,20 +85,27 @@ def Buf.after (b : Buf) : Text := b.text.drop b.cur
 
 /-- `Buffer._text_changed`: the state it resets (selection and — since the fix of the stale
     multiple cursors — `multiple_cursor_positions`). -/
-def textChanged (b : Buf) : Buf := { b with sel := none, multi := [] }
+def textChanged (b : Buf) : Buf := { b with sel := none, multi := [], yank := none, comp := none }
+
+/-- `Buffer._cursor_position_changed`: the state it resets (`complete_state`, `yank_nth_arg_state`),
+    when the stored cursor position `c` differs from the old one `old` -/
+def cursorChanged (b : Buf) (old c : Nat) : Buf :=
+  if c != old then { b with yank := none, comp := none } else b
 
 /-- `_set_text(v)` + `_set_cursor_position(c)` + the change events: when the text differs from the
-    old one, `_text_changed()` runs and `history_search_text` is reset. -/
+    old one, `_text_changed()` runs and `history_search_text` is reset; when the cursor differs,
+    `_cursor_position_changed()` runs. -/
 def writeText (b : Buf) (v : Text) (c : Nat) : Buf :=
-  if v != b.text then
-    { textChanged { b with lines := b.lines.set b.idx v, cur := c } with hsearch := none }
-  else { b with lines := b.lines.set b.idx v, cur := c }
+  cursorChanged
+    (if v != b.text then
+      { textChanged { b with lines := b.lines.set b.idx v, cur := c } with hsearch := none }
+    else { b with lines := b.lines.set b.idx v, cur := c }) b.cur c
 
 /-- `Buffer.cursor_position = value`: clamped to `0 .. len(text)`. -/
 def setCursor (b : Buf) (v : Int) : Buf :=
   let v := if v > (b.text.length : Int) then (b.text.length : Int) else v
   let v := if v < 0 then 0 else v
-  { b with cur := v.toNat }
+  cursorChanged { b with cur := v.toNat } b.cur v.toNat
 
 /-- `Buffer.text = value`: cursor clamp first, then the read-only check, then the change. -/
 def setText (b : Buf) (v : Text) : Buf × Outcome :=
@@ -101,7 +132,7 @@ def setWorkingIndex (b : Buf) (i : Nat) : Buf × Outcome :=
 def reset (b : Buf) (t : Text) (c : Nat) : Buf × Outcome :=
   if c > t.length then (b, .assertion)
   else ({ b with lines := [t], idx := 0, cur := c, sel := none, multi := [], undo := [], redo := [],
-                 hsearch := none }, .ok)
+                 hsearch := none, yank := none, comp := none }, .ok)
 
 /-- `Buffer.save_to_undo_stack(clear_redo_stack)` -/
 def saveUndo (b : Buf) (clear : Bool) : Buf :=
